@@ -12,6 +12,7 @@ Definition run (fam : bytes) (c : value) : value :=
   else if beq fam (B "split") then run_split c
   else if beq fam (B "sock") then run_sock c
   else if beq fam (B "srv") then run_srv c
+  else if beq fam (B "srvm") then run_srvm c
   else if beq fam (B "copier") then run_copier c
   else verr.
 
@@ -22,7 +23,7 @@ Definition chk (prop fam : bytes) (c o : value) : bool :=
   else if beq prop (B "C02") then (if beq fam (B "sock") then chk_C02 c o else true)
   else if beq prop (B "C03") then (if beq fam (B "sock") then chk_C03 c o else true)
   else if beq prop (B "C04") then (if beq fam (B "sock") || beq fam (B "srv") then chk_C04 c o else true)
-  else if beq prop (B "C05") || beq prop (B "C06") then (if beq fam (B "srv") then chk_route c o else true)
+  else if beq prop (B "C05") || beq prop (B "C06") then (if beq fam (B "srv") then chk_route c o else if beq fam (B "srvm") then chk_route_multi c o else true)
   else if beq prop (B "C14") then (if beq fam (B "copier") then chk_C14 c o else true)
   else if beq prop (B "C18") then (if beq fam (B "sock") then chk_C18 c o else true)
   else if beq prop (B "C19") then (if beq fam (B "sock") || beq fam (B "srv") then chk_C19_sock c o else true)
